@@ -185,6 +185,8 @@ def opC17Hostreq (args : List W) : String :=
   | [h, psl] =>
     match h.bytes?, decPslTable psl with
     | some h, some psl =>
+      -- hostnames are lower-case by contract (DESIGN §6; `c05_hostname_lowercase_needed`)
+      if h.any Bytes.isUpper then "ood ood" else
       let ext := mkExt psl [] []
       let s := if noEmptyLabel h then
           tok (encRequest { url := lit "http://" ++ h, urlLower := lit "http://" ++ h, hostname := h,
